@@ -4,6 +4,7 @@ import itertools
 from .. import prim
 from ..dispatch import arm_of
 from . import common as C
+from . import shared
 
 META = {
     "explanation": "R1 plumbing table Config field -> WalkDir builder argument (provenance of every builder argument) and token -> Config field (dispatch table), follow constants; "
@@ -96,8 +97,9 @@ def run(ctx):
         for tok, var in (("-follow", "Always"),):
             a = arm_of(arms, tok)
             ws = [(n, v) for n, v, b, _ in a.field_writes("find::Config") if n == "follow"] if a else []
-            ok = len(ws) == 1 and ws[0][1].k == "agg" and ws[0][1].a == FOLLOW + "::" + var
-            ctx.ob("R1", "token:%s=>Follow::%s" % (tok, var), ok, "%s writes follow=%s" % (tok, [v.fmt() for _, v in ws]), fn=fn, how="dispatch table")
+            wbl = [b for n, v, b, _ in a.field_writes("find::Config") if n == "follow"] if a else []
+            ok = len(ws) == 1 and ws[0][1].k == "agg" and ws[0][1].a == FOLLOW + "::" + var and prim.must_pass(fn, a.entry, [info["join"]], wbl)
+            ctx.ob("R1", "token:%s=>Follow::%s" % (tok, var), ok, "%s must set follow=%s unconditionally (on every path of its arm); writes: %s" % (tok, var, [v.fmt() for _, v in ws]), fn=fn, how="dispatch table + must-pass")
         for tok in ("-mount", "-xdev"):
             a = arm_of(arms, tok)
             ws = [(n, v) for n, v, b, _ in a.field_writes("find::Config") if n == "same_file_system"] if a else []
@@ -125,6 +127,8 @@ def run(ctx):
                     if len(vals) == 1 and vals[0] is not None and vals[0].strip().k == "agg":
                         got = str(vals[0].strip().a).split("::")[-1]
                 ctx.ob("R1", "flag:%s=>Follow::%s" % (lit, var), got == var, "%s sets follow=%s; oracle %s" % (lit, got, var), fn=pa, how="dispatch table")
+
+    shared.sticky_exit_status(ctx, "R3")
 
     # ---- R2 contract W1 -----------------------------------------------------------------------
     nexts = [b for b, t in pf.calls() if C.walk_role(t) == "next"]
